@@ -656,6 +656,8 @@ class Daemon(object):
                 raise TypeError("objectId must be a string or None")
         else:
             objectId = "obj_" + uuid.uuid4().hex  # generate a new objectId
+        if objectId == core.DAEMON_NAME:
+            raise errors.DaemonError("the id of the daemon's own object is reserved")
         if inspect.isclass(obj_or_class):
             if weak: raise TypeError("Classes cannot be registered with weak=True.")
             if not hasattr(obj_or_class, "_pyroInstancing"):
